@@ -476,6 +476,9 @@ func (v *Env) ident(name string) Value {
 				}
 				for _, ins := range blk.Instrs {
 					if phi, ok := ins.(*ssa.Phi); ok && phi.Comment == base {
+						if hv, ok := v.e.headVals[phi]; ok {
+							return hv
+						}
 						return v.e.val(phi)
 					}
 				}
@@ -652,6 +655,27 @@ func (v *Env) unary(x *SExpr) Value {
 	return nil
 }
 
+// structField: x (possibly under old) selected a struct-typed field in the evaluation just made
+func (v *Env) structField(x *SExpr) bool {
+	if x.Kind == SCall && len(x.Args) == 2 && x.Args[0].Kind == SIdent && x.Args[0].Name == "old" {
+		x = x.Args[1]
+	}
+	return x.Kind == SSel && v.e.structSel[x]
+}
+
+func (v *Env) contentOf(x *SExpr, loc Value) Value {
+	p, ok := loc.(PtrV)
+	if !ok {
+		return loc
+	}
+	if x.Kind == SCall && len(x.Args) == 2 && x.Args[0].Kind == SIdent && x.Args[0].Name == "old" {
+		saved := v.inOld
+		v.inOld = true
+		defer func() { v.inOld = saved }()
+	}
+	return v.e.loadAt(v.state(), p)
+}
+
 var tokOf = map[string]token.Token{"+": token.ADD, "-": token.SUB, "*": token.MUL, "/": token.QUO, "%": token.REM,
 	"&": token.AND, "|": token.OR, "^": token.XOR, "&^": token.AND_NOT, "<<": token.SHL, ">>": token.SHR,
 	"==": token.EQL, "!=": token.NEQ, "<": token.LSS, "<=": token.LEQ, ">": token.GTR, ">=": token.GEQ}
@@ -662,6 +686,21 @@ func (v *Env) binary(x *SExpr) Value {
 		return Scalar{v.evalBool(x)}
 	}
 	a, b := v.eval(x.Args[0]), v.eval(x.Args[1])
+	if x.Op == "==" || x.Op == "!=" {
+		// x.f == y.g where both fields hold structs compares the structs, as in Go (a struct-typed
+		// field otherwise denotes its location)
+		_, sa := a.(StructV)
+		_, sb := b.(StructV)
+		fa, fb := v.structField(x.Args[0]), v.structField(x.Args[1])
+		if (fa || sa) && (fb || sb) {
+			if fa {
+				a = v.contentOf(x.Args[0], a)
+			}
+			if fb {
+				b = v.contentOf(x.Args[1], b)
+			}
+		}
+	}
 	ua, aok := a.(UntypedInt)
 	ub, bok := b.(UntypedInt)
 	if aok && bok {
@@ -721,8 +760,6 @@ func (v *Env) binary(x *SExpr) Value {
 		}
 	}
 	op := tokOf[x.Op]
-	dummy := &State{pc: False} // contract arithmetic generates no obligations
-	_ = dummy
 	return v.e.specBinop(op, a, b)
 }
 
@@ -920,6 +957,12 @@ func (v *Env) selector(x *SExpr) Value {
 				if p.Kind == pObj || p.Kind == pArr || p.Kind == pElem {
 					// struct-typed or array-typed field: its "value" in a contract is its location
 					if p.Kind == pObj || p.Kind == pArr {
+						if p.Kind == pObj {
+							if v.e.structSel == nil {
+								v.e.structSel = map[*SExpr]bool{}
+							}
+							v.e.structSel[x] = true
+						}
 						return p
 					}
 				}
